@@ -16,10 +16,14 @@ type orphanScenario struct {
 	N        int  `json:"phases"`
 	Mask     uint `json:"delegated"`
 	Restarts int  `json:"restarts"`
+	// Archive: the user may archive the ObjectSet first; its teardown is held up by a foreign
+	// finalizer on Hold, and the orphan deletion arrives at any point of it
+	Archive bool   `json:"archiveFirst"`
+	Hold    string `json:"hold"`
 }
 
 func (sc orphanScenario) name() string {
-	return fmt.Sprintf("orphan-delete phases=%d delegated=%03b restarts=%d", sc.N, sc.Mask, sc.Restarts)
+	return fmt.Sprintf("orphan-delete phases=%d delegated=%03b restarts=%d archiveFirst=%v hold=%s", sc.N, sc.Mask, sc.Restarts, sc.Archive, sc.Hold)
 }
 
 func orphanSystem(sc orphanScenario) *world.System {
@@ -40,23 +44,49 @@ func orphanSystem(sc orphanScenario) *world.System {
 			}
 			w.Budget["user"] = 1
 			w.Budget["restart"] = sc.Restarts
+			if sc.Archive {
+				w.Budget["archive"] = 1
+				for _, k := range objs {
+					if k.Name == sc.Hold {
+						osw.AddFinalizer(w, k, osw.HoldFinalizer)
+					}
+				}
+			}
 			return w
 		},
 		Events: func(w *world.World) []world.Event {
-			if w.Budget["user"] > 0 {
-				return []world.Event{{Name: "user:delete-orphan:r1", Apply: func(w *world.World) *world.Pass {
-					w.Budget["user"]--
-					_ = w.S.Delete(osw.OSKey("r1"), kmodel.DeleteOpts{Propagation: "Orphan"})
-					return nil
-				}}}
+			orphan := world.Event{Name: "user:delete-orphan:r1", Apply: func(w *world.World) *world.Pass {
+				w.Budget["user"]--
+				_ = w.S.Delete(osw.OSKey("r1"), kmodel.DeleteOpts{Propagation: "Orphan"})
+				return nil
+			}}
+			if w.Budget["user"] > 0 && !sc.Archive {
+				return []world.Event{orphan}
 			}
-			evs := osw.ReconcileEvents(w)
+			var pre []world.Event
+			if w.Budget["user"] > 0 {
+				if w.Budget["archive"] > 0 {
+					// teardown by archival is explored from the moment the user archives
+					return []world.Event{{Name: "user:archive:r1", Apply: func(w *world.World) *world.Pass {
+						w.Budget["archive"]--
+						osw.SetLifecycle(w, "r1", "Archived")
+						return nil
+					}}}
+				}
+				pre = append(pre, orphan)
+				pre = append(pre, osw.ReleaseEvents(w)...)
+			}
+			evs := append(pre, osw.ReconcileEvents(w)...)
 			evs = append(evs, osw.GCEvent(w)...)
 			evs = append(evs, osw.CrashEvents(w)...)
 			return evs
 		},
 		Check: func(before *world.World, ev world.Event, pass *world.Pass, after *world.World) []world.Finding {
 			var out []world.Finding
+			// the clause holds from the moment of the orphan deletion
+			if o := before.S.Objs[osw.OSKey("r1")]; before.Budget["user"] > 0 || (o != nil && !kmodel.Terminating(o.Content)) {
+				return nil
+			}
 			if pass != nil {
 				for i, r := range pass.Reqs {
 					if r.Verb == "delete" && r.IsWrite() && r.Err == nil && r.Pre != nil {
@@ -79,17 +109,21 @@ func orphanSystem(sc orphanScenario) *world.System {
 
 func orphanScenarios(quick bool) []orphanScenario {
 	out := []orphanScenario{{N: 2, Mask: 0b00, Restarts: 1}, {N: 2, Mask: 0b01, Restarts: 1}, {N: 2, Mask: 0b10, Restarts: 1}, {N: 2, Mask: 0b11, Restarts: 1}}
+	// (archive-first systems use local phases only: an ObjectSetPhase the archival already deleted
+	// finishes its own teardown, ordered before the orphan deletion - the clause is silent on it)
+	out = append(out, orphanScenario{N: 2, Mask: 0b00, Archive: true, Hold: "b"}, orphanScenario{N: 2, Mask: 0b00, Archive: true, Hold: "g", Restarts: 1})
 	if !quick {
 		for m := uint(0); m < 8; m++ {
 			out = append(out, orphanScenario{N: 3, Mask: m, Restarts: 2})
 		}
+		out = append(out, orphanScenario{N: 3, Mask: 0, Archive: true, Hold: "c", Restarts: 1}, orphanScenario{N: 3, Mask: 0, Archive: true, Hold: "b"}, orphanScenario{N: 3, Mask: 0, Archive: true, Hold: "g", Restarts: 2})
 	}
 	return out
 }
 
 func runOrphan(o checks.Opts) *report.Report {
 	rep := report.New("C05", "orphan-system")
-	rep.Rule = "explicit-state BFS to closure from the fully rolled-out state of an ObjectSet with every subset of phases delegated: the user deletes it with orphan propagation, then reconcile(ObjectSet / each ObjectSetPhase) and the garbage collector (which strips owner references and then drops the orphan finalizer) in any order, with an operator crash before request i of a pass for every i; no PKO request deletes anything and no rolled-out object disappears or starts terminating"
+	rep.Rule = "explicit-state BFS to closure from the fully rolled-out state of an ObjectSet with every subset of phases delegated: the user deletes it with orphan propagation (in some systems after archiving it, at any point of an archival teardown that a foreign finalizer holds up), then reconcile(ObjectSet / each ObjectSetPhase) and the garbage collector (which strips owner references and then drops the orphan finalizer) in any order, with an operator crash before request i of a pass for every i; no PKO request deletes anything and no rolled-out object disappears or starts terminating"
 	scs := orphanScenarios(o.Quick())
 	rep.Bounds["systems"] = len(scs)
 	for i, sc := range scs {
